@@ -148,18 +148,23 @@ Proof.
   intros He. unfold begin_commit. cbv zeta. crunch; cbn; rewrite ?He; auto.
 Qed.
 
-Lemma NQ_try_prepare i : AllQ i -> i_err i = None -> NQ (try_prepare c i).
+Lemma try_prepare_errs i : i_err i = None ->
+  i_err (try_prepare c i) = None \/ i_err (try_prepare c i) = Some PFindQuorum \/ i_err (try_prepare c i) = Some PBeginCommit.
+Proof.
+  intros He. unfold try_prepare. cbv zeta.
+  match goal with |- context [if _ then begin_commit c ?x else _] => set (i1 := x) end.
+  assert (E1 : i_err i1 = None) by (unfold i1; crunch; exact He).
+  destruct (_ || _ || _ || _); [apply begin_commit_errs; exact E1|].
+  left. destruct (should_rebroadcast c i1); [rewrite err_try_rebroadcast|]; exact E1.
+Qed.
+Lemma try_prepare_err_none i : AllQ i -> i_err i = None -> i_err (try_prepare c i) = None.
 Proof.
   intros HA He.
   destruct (try_prepare_no_panic c Htotal Hpow Hsum i) as [N1 N2]; [apply HA|exact He|].
-  assert (H : i_err (try_prepare c i) = None \/ i_err (try_prepare c i) = Some PFindQuorum \/ i_err (try_prepare c i) = Some PBeginCommit).
-  { unfold try_prepare. cbv zeta.
-    match goal with |- context [if _ then begin_commit c ?x else _] => set (i1 := x) end.
-    assert (E1 : i_err i1 = None) by (unfold i1; crunch; exact He).
-    destruct (_ || _ || _ || _); [apply begin_commit_errs; exact E1|].
-    left. destruct (should_rebroadcast c i1); [rewrite err_try_rebroadcast|]; exact E1. }
-  destruct H as [H|[H|H]]; [apply NQ_none; exact H|congruence|congruence].
+  destruct (try_prepare_errs i He) as [H|[H|H]]; [exact H|congruence|congruence].
 Qed.
+Lemma NQ_try_prepare i : AllQ i -> i_err i = None -> NQ (try_prepare c i).
+Proof. intros HA He. apply NQ_none. apply try_prepare_err_none; assumption. Qed.
 
 Lemma GQ_try_commit i round sway : AllQ i -> i_err i = None ->
   AllQ (try_commit c i round sway) /\ NQ (try_commit c i round sway).
